@@ -283,3 +283,13 @@ Proof.
   intros r c H. unfold new_cfg in H. destruct (_ && _) in H; [|discriminate]. inversion H; subst c.
   repeat split; try (unfold spec_dns, norm_dns; destruct (r_dns r); reflexivity).
 Qed.
+
+(* the loader never puts the network or broadcast address of the netfilter subnet into the table: a restored
+   lease that points at net2 holds an address strictly inside net2 (whatever the file held) *)
+Theorem restore_net2_in_pool : forall cL se saved l x,
+  In l (restore cL se saved) -> l_net2 l = true -> l_ip l = Some x -> in_pool cL true x.
+Proof.
+  intros cL se saved l x Hin Hn Hi. unfold restore in Hin. apply in_map_iff in Hin as [l0 [E _]]. subst l. cbn [l_net2 l_ip] in *.
+  rewrite Hi in Hn. apply andb_true_iff in Hn as [_ Hn]. apply andb_true_iff in Hn as [Hn C3]. apply andb_true_iff in Hn as [C1 C2].
+  apply n_contains_range in C1. apply negb_true_iff in C2, C3. apply N.eqb_neq in C2, C3. unfold in_pool. lia.
+Qed.
